@@ -539,7 +539,7 @@ def _run_traced_op(path, fmt, mode, op, ids):
             hint.append((pr[1] % 100000) // 10)
         steps.append([pr] + _state7(prev, cur))
         prev = cur
-    return [init, _canonical(steps), True], hint, problems, len(snaps) + 1
+    return [init, _canonical(steps), True], _op_hint(op, events, hint), problems, len(snaps) + 1
 
 
 def _run_plain_op(path, fmt, mode, op, ids):
@@ -556,7 +556,17 @@ def _run_plain_op(path, fmt, mode, op, ids):
         pr = _project(ids, ev)
         if pr is not None and str(pr[0]) == "move" and pr[1] // 100000 == 2 and pr[2] // 100000 == 4:
             hint.append((pr[1] % 100000) // 10)
-    return hint
+    return _op_hint(op, events, hint)
+
+
+def _op_hint(op, events, obsoleted):
+    """What the model cannot know: commit/fetch -> the packs autopack really combined; pack -> whether the
+    packer aborted because the repacked bytes hash to the old name ("already optimally packed")."""
+    if op[0] == "pack":
+        opened = any(e["kind"] == "open" and e["a"].startswith("repository/upload/") for e in events)
+        moved = any(e["kind"] in ("move", "rename") and (e["b"] or "").startswith("repository/packs/") for e in events)
+        return bool(opened and not moved)
+    return obsoleted
 
 
 def _scratch():
@@ -727,7 +737,7 @@ def cases(rng, tier):
         for fmt in BOTH:
             for name, mode, base, ops in _THOROUGH:
                 yield {"fmt": fmt, "mode": mode, "base": base, "ops": ops, "family": name}
-        for _ in range(70):
+        for _ in range(30):
             yield _random_scenario(rng)
     else:
         for _ in range(3):
@@ -753,7 +763,7 @@ def _coq_sop(op, hint, mode):
         if mode == "tree":
             raise ValueError("tree commits are expanded one revision at a time")
         return "(SCommit %s %s None)" % (coq_list(op[1], coq_nat), coq_list(sorted(hint), coq_nat))
-    return "SPack" if op[0] == "pack" else "SEmpty"
+    return ("(SPack %s)" % coq_bool(bool(hint) if isinstance(hint, bool) else False)) if op[0] == "pack" else "SEmpty"
 
 
 def _coq_ops(ops, hints, mode):
